@@ -42,6 +42,7 @@ type State struct {
 	facts  map[string]bool
 	locals map[string]localCell // copy-on-write
 	next0  Term                 // allocation counter at function entry
+	pendingHavoc []string      // component prefixes havocked before their first use on this path
 }
 
 func (st *State) clone(n *Node) *State {
@@ -61,6 +62,7 @@ func (st *State) clone(n *Node) *State {
 	c.learn(n.T)
 	c.locals = st.locals
 	c.next0 = st.next0
+	c.pendingHavoc = st.pendingHavoc
 	return c
 }
 
@@ -140,6 +142,14 @@ func heapName(root types.Type, compPath string) string {
 func (e *Engine) heapGet(st *State, name, sort string) Term {
 	if t, ok := st.heap[name]; ok {
 		return t
+	}
+	for _, ph := range st.pendingHavoc {
+		if strings.HasPrefix(name, ph) {
+			// havocked (by a loop) before its first use on this path
+			t := e.sym.Fresh("Hloop!"+name, sort)
+			st.heap[name] = t
+			return t
+		}
 	}
 	// initial heap component: a constant shared by all paths (per havoc epoch)
 	t := e.sym.Const("H0!"+st.epoch+name, sort)
